@@ -84,4 +84,13 @@ def obligations(tier, seed):
             sub = [(k, st) for k, st in tpl if st.kind in ("insert", "ctas") and not st.paren]
             for k, st in rnd.sample(sub, len(sub) // 3):
                 obs.append(PairOb(k, st, d, "cols", 5, seed))
+    # every base-table name double-quoted (case kept): un-aliased quoted tables used as column qualifiers
+    from lx.tree import PLACEHOLDER as _PH
+
+    for k, st in tpl:
+        if k in ("insert/single/plain", "insert/join_noalias/plain", "insert/comma/plain", "insert/schema/plain", "update/from", "merge/table",
+                 "insert/join_noalias/cte", "insert/single/where_in", "insert/join_noalias/derived", "insert/join_on/plain"):
+            sql = gen.Renderer().stmt(st)
+            q = {m.lower(): "dq" for m in _PH.findall(sql) if m.lower()[2] == "t"}
+            obs.append(PairOb(k, st, "ansi", "tabs", 4, seed, quotes=q))
     return obs
